@@ -1,6 +1,6 @@
 /-
   Spec.PipelineExt — the oracle of C03 extended to `$group`, `$lookup`, `$addFields` / `$set`,
-  `$replaceRoot` and `$facet` (Spec/Pipeline.lean speaks about seven stage kinds only), and the
+  `$replaceRoot`, `$bucket` and `$facet` (Spec/Pipeline.lean speaks about seven stage kinds only), and the
   domain D on which the model is proved equal to it.  Written plainly, independently of
   MongoModel.Pipeline; expression values are the values of the C04 oracle `Spec.specEval`.
 
@@ -26,6 +26,8 @@
                 array (an item that is no document becomes one, an array inside the array is
                 gone through) — `setDeepIn`; no name may be a prefix of another one
     $replaceRoot   the value of `newRoot`, which must be a document
+    $bucket     a `$group` on the boundary `bᵢ ≤ groupBy < bᵢ₊₁` (else `default`, else the stage
+                fails) followed by a sort on `_id`: see `specBucketStage`
     $facet      one document `{name: output of the sub-pipeline on the same input, …}`
 
   MongoDB leaves the order of the groups unspecified and a Python dict does not order its keys:
@@ -236,6 +238,92 @@ def specReplaceRootStage (opts : Val) (docs : List Val) : Option (List Val) :=
       | _ => none) docs
   | _ => none
 
+/-! ### `$bucket`
+
+  MongoDB defines `{$bucket: {groupBy, boundaries: [b₀ … bₙ], default, output}}` as a `$group`
+  whose key is the boundary `bᵢ` with `bᵢ ≤ groupBy < bᵢ₊₁` (comparisons in the BSON order: a
+  value that is no number lies below — null, missing — or above every numeric boundary), the
+  `default` for a value outside every `[bᵢ, bᵢ₊₁)` (no default: the stage fails, the oracle is
+  silent), followed by a sort on `_id`: one document per NON-EMPTY bucket, the boundary buckets
+  in boundary order and the default bucket where its `_id` sorts (a number below `b₀`, null:
+  first; a number `≥ bₙ`, a string, …: last); `output` holds accumulators as in `$group`, folded
+  over the bucket's documents in input order, `{count: {$sum: 1}}` when it is not given.
+  Options: only these four; `groupBy` a `$`-prefixed path or an expression object; at least two
+  boundaries, here numbers (scope), STRICTLY ascending; a numeric `default` must lie below the
+  lowest or at / above the highest boundary. -/
+
+/-- the boundary `bᵢ` with `bᵢ ≤ x < bᵢ₊₁` -/
+def specSlot : List Val → Val → Option Val
+  | b :: b' :: r, x => if !valLt x b && valLt x b' then some b else specSlot (b' :: r) x
+  | _, _ => none
+
+def strictAsc : List Val → Bool
+  | a :: b :: r => valLt a b && strictAsc (b :: r)
+  | _ => true
+
+/-- `groupBy` is a `$`-prefixed path or an expression object -/
+def groupByForm : Val → Bool
+  | .str s => startsWithDollar s
+  | .doc _ => true
+  | _ => false
+
+/-- a `default` MongoDB accepts next to numeric boundaries: of another type, or a number below the
+    lowest / at or above the highest boundary -/
+def defaultOk (bs : List Val) (d : Val) : Bool :=
+  !d.isNumber ||
+    (match bs.head?, bs.getLast? with
+     | some lo, some hi => valLt d lo || !valLt d hi
+     | _, _ => false)
+
+structure BucketArgs where
+  groupBy : Val
+  bounds : List Val
+  default : Option Val
+  output : Fields
+
+def bucketOutput (o : Fields) : Option Fields :=
+  match dget "output" o with
+  | none => some [("count", Val.doc [("$sum", .int 1)])]
+  | some (.doc f) => some f
+  | some _ => none
+
+def bucketArgs : Val → Option BucketArgs
+  | .doc o =>
+    if o.any (fun kv => !(["groupBy", "boundaries", "output", "default"].contains kv.1)) then none
+    else
+      match dget "groupBy" o, dget "boundaries" o with
+      | some gb, some (.arr bs) =>
+        if !(groupByForm gb) || bs.length < 2 || !(bs.all Val.isNumber) || !(strictAsc bs) then none
+        else
+          match bucketOutput o with
+          | none => none
+          | some out =>
+            if !(accSpecsOk out) || dhas "_id" out then none
+            else
+              match dget "default" o with
+              | none => some ⟨gb, bs, none, out⟩
+              | some d => if defaultOk bs d then some ⟨gb, bs, some d, out⟩ else none
+      | _, _ => none
+  | _ => none
+
+/-- the bucket `_id` of document `d` (a missing `groupBy` value counts as null) -/
+def specBucketKey (a : BucketArgs) (d : Val) : Option Val :=
+  (exprValue a.groupBy d).bind (fun r =>
+    match specSlot a.bounds (r.getD .null) with
+    | some b => some b
+    | none => a.default)
+
+def specBucketKeyed (a : BucketArgs) (docs : List Val) : Option (List (Val × Val)) :=
+  mapOpt (fun d => (specBucketKey a d).map (fun k => (k, d))) docs
+
+/-- `$bucket`: the non-empty buckets in ascending `_id` order (`_id` written last, like
+    `specGroupStageSorted`) -/
+def specBucketStage (opts : Val) (docs : List Val) : Option (List Val) :=
+  (bucketArgs opts).bind (fun a =>
+    (specBucketKeyed a docs).bind (fun kds =>
+      (specGroupDocs a.output (isort (fun x y => valLt x.1 y.1) (specGroups kds))).map
+        (fun out => out.map Spec.Proj.idLast)))
+
 /-! ### every stage, pipelines, `$facet` -/
 
 def specStageX (db : Pipe.Db) (op : String) (opts : Val) (docs : List Val) : Option (List Val) :=
@@ -243,6 +331,7 @@ def specStageX (db : Pipe.Db) (op : String) (opts : Val) (docs : List Val) : Opt
   else if op = "$lookup" then specLookupStage db opts docs
   else if op = "$addFields" || op = "$set" then specAddFieldsStage opts docs
   else if op = "$replaceRoot" then specReplaceRootStage opts docs
+  else if op = "$bucket" then specBucketStage opts docs
   else specStage op opts docs
 
 def specPipelineX (db : Pipe.Db) : List Val → List Val → Option (List Val)
@@ -273,7 +362,7 @@ def specFacet (db : Pipe.Db) : Fields → List Val → Option Fields
   (`$sum` / `$avg` over doubles: the oracle adds integers), avginexact (the average is not a
   double), minmaxscope (`$min` / `$max` over arrays, documents, aware dates, generated ObjectIds:
   not ordered by `Spec.Order.valLt`), setscope, joinscope, datenorm, nondoc, collname,
-  `expr:<class of Spec/ExprDomain.lean>`.
+  `expr:<class of Spec/ExprDomain.lean>`; the classes of `$bucket` are listed at `bucketReasons`.
   Gone with the repairs of the library: groupnullempty, groupfalsyid, addtosetfalsy,
   firstmissing, minmaxtypes, sumbool, accmissing, and accstrict (the accumulator argument is
   evaluated like every computed field, `Expr.evalExpr`, which is what the C04 theorem is about). -/
@@ -406,11 +495,66 @@ def replaceRootReasons (opts : Val) (docs : List Val) : List String :=
   | .doc [("newRoot", e)] => exprTags e docs
   | _ => ["nospec"]
 
+/-! `$bucket`: where the code and MongoDB's rule differ.
+    known findings: bucketcrosstype (a `groupBy` value that is no number — null, a string, a
+    date, … — is compared with the boundaries by Python `<`: TypeError; MongoDB places it in the
+    BSON order, i.e. in the default bucket), bucketboolnum (a boolean `groupBy` value is counted as
+    0 / 1), bucketdefaulttype (a null default is emitted last, MongoDB sorts it first; a boolean
+    default is placed, and merged, as the number 0 / 1), and — the oracle silent, MongoDB refuses
+    the stage, the code runs it — bucketdupbounds (equal neighbouring boundaries),
+    bucketdefaultinside (a numeric default inside `[b₀, bₙ)`), bucketgroupbyconst (a constant
+    `groupBy`);  scope: bucketexprstrict (an expression object as `groupBy` is evaluated without
+    the missing-field convention, `evalExprStrict`, about which the C04 theorem does not speak),
+    keyscope (a default that is an array, document, ObjectId, aware date), nospec. -/
+
+def ascWithTies : List Val → Bool
+  | a :: b :: r => !valLt b a && ascWithTies (b :: r)
+  | _ => true
+
+/-- stages MongoDB refuses and the code runs -/
+def bucketRefused : Val → List String
+  | .doc o =>
+    match dget "groupBy" o, dget "boundaries" o with
+    | some gb, some (.arr bs) =>
+      (if groupByForm gb then [] else ["bucketgroupbyconst"]) ++
+      (if bs.all Val.isNumber && ascWithTies bs && !strictAsc bs then ["bucketdupbounds"] else []) ++
+      (match dget "default" o with
+       | some d => if bs.all Val.isNumber && !defaultOk bs d then ["bucketdefaultinside"] else []
+       | none => [])
+    | _, _ => []
+  | _ => []
+
+def bucketValueReasons : Option Val → List String
+  | none => []
+  | some (.int _) | some (.dbl _ _) => []
+  | some (.bool _) => ["bucketboolnum"]
+  | some _ => ["bucketcrosstype"]
+
+def bucketDefaultReasons : Option Val → List String
+  | none => []
+  | some .null | some (.bool _) => ["bucketdefaulttype"]
+  | some d => if groupKeyOk d then [] else ["keyscope"]
+
+def bucketReasons (opts : Val) (docs : List Val) : List String :=
+  match bucketArgs opts with
+  | none => if (bucketRefused opts).isEmpty then ["nospec"] else bucketRefused opts
+  | some a =>
+    (match a.groupBy with | .str _ => [] | _ => ["bucketexprstrict"]) ++
+    exprTags a.groupBy docs ++
+    docs.flatMap (fun d => match exprValue a.groupBy d with
+      | some r => bucketValueReasons r
+      | none => ["nospec"]) ++
+    bucketDefaultReasons a.default ++
+    (match specBucketKeyed a docs with
+     | some kds => (specGroups kds).flatMap (fun g => accFieldReasons a.output g.2)
+     | none => ["nospec"])
+
 def stageReasonsX (db : Pipe.Db) (op : String) (opts : Val) (docs : List Val) : List String :=
   if op = "$group" then groupReasons opts docs
   else if op = "$lookup" then lookupReasons db opts docs
   else if op = "$addFields" || op = "$set" then addFieldsReasons opts docs
   else if op = "$replaceRoot" then replaceRootReasons opts docs
+  else if op = "$bucket" then bucketReasons opts docs
   else stageReasons op opts docs
 
 def pipelineReasonsX (db : Pipe.Db) : List Val → List Val → List String
